@@ -167,5 +167,13 @@ pub(crate) fn parse_expr(
     tokens: TokenStream,
 ) -> Option<ptr::P<ast::Expr>> {
     let mut parser = build_parser(context, tokens);
-    parser.parse_expr().ok()
+    match parser.parse_expr() {
+        // The tokens have to be one expression and nothing else.
+        Ok(expr) if parser.token == TokenKind::Eof => Some(expr),
+        Ok(_) => None,
+        Err(e) => {
+            e.cancel();
+            None
+        }
+    }
 }
